@@ -8,22 +8,24 @@ structure StEntry where
   contract : List Nat
   key : List Int
   res : Except Int (List Int)
+  /-- a *raw* answer: a read starting at this key returns exactly these values, however many were asked for -/
+  raw : Option (List (List Int)) := none
 
 def pStEntry : Parser StEntry := do
   let c ← bytes; let k ← words
   let t ← tok
-  let r ← (match t with
-    | "v" => do let v ← words; pure (Except.ok v)
-    | "e" => do let c ← int; pure (Except.error c)
-    | _ => failure : Parser (Except Int (List Int)))
-  pure ⟨c, k, r⟩
+  match t with
+  | "v" => do let v ← words; pure ⟨c, k, Except.ok v, none⟩
+  | "e" => do let e ← int; pure ⟨c, k, Except.error e, none⟩
+  | "r" => do let vs ← listOf words; pure ⟨c, k, Except.ok [], some vs⟩
+  | _ => failure
 
 /-- the harness' map state: `n` consecutive keys from `key`, missing keys read as empty,
 stops at key wrap-around; an error entry fails the whole read -/
 def mapStateLoop (es : List StEntry) (c : List Nat) : Nat → List Int → Except Int (List (List Int))
   | 0, _ => .ok []
   | n+1, key =>
-    let v : Except Int (List Int) := match es.find? (fun e => e.contract == c && e.key == key) with
+    let v : Except Int (List Int) := match es.find? (fun e => e.raw.isNone && e.contract == c && e.key == key) with
       | some e => e.res
       | none => .ok []
     match v with
@@ -33,7 +35,10 @@ def mapStateLoop (es : List StEntry) (c : List Nat) : Nat → List Int → Excep
       | none => .ok [v]
       | some k' => (mapStateLoop es c n k').map (v :: ·)
 
-def mapState (es : List StEntry) : StateView := fun c k n => mapStateLoop es c n k
+def mapState (es : List StEntry) : StateView := fun c k n =>
+  match es.find? (fun e => e.raw.isSome && e.contract == c && e.key == k) with
+  | some e => .ok (e.raw.getD [])
+  | none => mapStateLoop es c n k
 
 def showPredError : PredError → String
   | .invalidNodeEdges n => s!"InvalidNodeEdges:{n}"
